@@ -107,6 +107,33 @@ def getOptRat (j : Json) (k : String) : Except String (Option Rat) :=
   | .ok .null => pure none
   | .ok v => some <$> parseRat v
 
+/-- rounding of a rational to a binary floating type with `mant` significant bits (round half to even;
+no subnormals / overflow: index magnitudes are moderate) -/
+def narrowTo (mant : Nat) (x : Rat) : Rat :=
+  if x = 0 then 0 else
+  let a := if x < 0 then -x else x
+  -- e with 2^e <= a < 2^(e+1)
+  let e0 : Int := (Nat.log2 a.num.natAbs : Int) - (Nat.log2 a.den : Int)
+  let pow2 (k : Int) : Rat := if k ≥ 0 then ((2 ^ k.toNat : Nat) : Rat) else 1 / ((2 ^ (-k).toNat : Nat) : Rat)
+  let e := if pow2 e0 ≤ a then (if pow2 (e0 + 1) ≤ a then e0 + 1 else e0) else e0 - 1
+  let q := pow2 (e - (mant : Int) + 1)
+  ((roundHalfEven (x / q) : Int) : Rat) * q
+
+/-- `{"kind": "i"|"u"|"f"|"b", "lo": int, "hi": int, "float": "f16"|"f32"|"f64"}` -/
+def getDtype (j : Json) : Except String PtDtype := do
+  match j.getObjVal? "dtype" with
+  | .error _ => pure ⟨"f", 0, 0, id⟩
+  | .ok d =>
+    let kind ← getStr d "kind"
+    let lo := (getInt d "lo").toOption.getD 0
+    let hi := (getInt d "hi").toOption.getD 0
+    let fl := (getStr d "float").toOption.getD "f64"
+    let narrow : Rat → Rat := match fl with
+      | "f32" => narrowTo 24
+      | "f16" => narrowTo 11
+      | _ => id
+    pure ⟨kind, lo, hi, narrow⟩
+
 def handlers : List (String × Handler) := [
   ("geometryEqual", fun j => do
     let g ← getGeom (← j.getObjVal? "a")
@@ -143,7 +170,7 @@ def handlers : List (String × Handler) := [
     let r := getitemAxis ⟨← getInt j "start", ← getOptInt j "stop", ← getInt j "step"⟩ (← getInt j "n")
     pure (exceptToJson (fun (x : Int × Int × Int) => intsToJson [x.1, x.2.1, x.2.2]) r)),
   ("v2v", fun j => do
-    let r := v2vBySource (← getAff j "from") (← getAff j "to") (← tri (← getIntList j "shape")) (← getBool j "round")
+    let r := v2vBySource (← getAff j "from") (← getAff j "to") (← tri (← getIntList j "shape")) (← getDtype j) (← getBool j "round")
       (← getBool j "check") (← getPts j "pts")
     pure (exceptToJson ptsJson r)),
   ("refToIdx", fun j => do
